@@ -54,6 +54,8 @@ class Result(object):
     def violation(self, sig, msg, case):
         self.violations.append({'sig': sig, 'msg': msg, 'case': case})
         self.classes['VIOLATION'] += 1
+        self.n += 1                 # a violating execution is an evaluation too
+        self.nontrivial += 1
 
     def sample(self, s):
         if len(self.samples) < 3:
